@@ -401,7 +401,7 @@ def bcast_fn(text, features):
     b = b.replace("crate::patterns::", "")
     INV = ("    invariant elements@.len() == mlv(source).unwrap().len(), mlv(source) == Some(elements@), i_ <= elements@.len(),\n"
            "      applicable(*fxn_def, input_arg_values@), source == dv(input_arg_values@[0]), ka(fxn_def.code.input@[0].kind.kind) == Some(input_kind),\n"
-           "      ka(fxn_def.code.output@[0].kind.kind) == Some(output_kind), input_kind == output_kind, !(input_kind is Matrix),\n"
+           "      ka(fxn_def.code.output@[0].kind.kind) == Some(output_kind), !(input_kind is Matrix),\n"
            "      p.log@ == old(p).log@ + elements@.subrange(0, i_ as int),\n"
            "      map_f(fxn_def.id, elements@, i_ as int, old(p).log@) == Some(outputs@),\n")
     b, n = re.subn(r"for\s+element\s+in\s+elements\s*\{", "for i_ in 0..elements.len()\n" + INV + "  {\n    let element = vec_take(&elements, i_);\n    proof { reveal_with_fuel(map_f, 2); lemma_map_f_none(fxn_def.id, elements@, i_ + 1, elements@.len() as int, old(p).log@); assert(elements@.subrange(0, i_ + 1) =~= elements@.subrange(0, i_ as int).push(elements@[i_ as int])); assert(old(p).log@ + elements@.subrange(0, i_ + 1) =~= (old(p).log@ + elements@.subrange(0, i_ as int)).push(elements@[i_ as int])); }", b)
